@@ -18,7 +18,7 @@ Definition fai_query_gen (chk : bool) (r : fai) (start0 : N) : option N :=
   if chk && (0 <? start0) && (f_len r <=? start0) then None   (* Err(InvalidInput) *)
   else Some (f_pos r + start0 / f_lb r * f_lw r + start0 mod f_lb r).
 
-Definition fai_query := fai_query_gen false.
+Definition fai_query := fai_query_gen true.
 
 Fixpoint list_eqb (a b : list N) : bool :=
   match a, b with
@@ -91,7 +91,7 @@ Definition reader_query_gen (chk : bool) (f : list N) (idx : list fai) (name : l
   | Some r => query_record chk f r s e
   end.
 
-Definition reader_query := reader_query_gen false.
+Definition reader_query := reader_query_gen true.
 
 (* index the file with the model indexer, then query (what the harness observes) *)
 Definition index_and_query (f : list N) (name : list N) (s e : option N) : qres :=
